@@ -3,6 +3,7 @@ package props
 import (
 	"fmt"
 	"sort"
+	"sync"
 
 	"github.com/openziti/storage/ast"
 	"github.com/openziti/storage/boltz"
@@ -19,6 +20,48 @@ var c15Configs = []kmodel.Config{
 	{DeptFK: schema.FkIndexCascade, BossCascade: boltz.CascadeCreateUpdate, BossNullable: true, Children: true},
 }
 
+// c15Watch is an entity constraint registered on the parent store: it records the initial and final shared fields of
+// every update it is shown before the commit.
+type c15Watch struct {
+	mu   sync.Mutex
+	seen []c15Update
+}
+
+type c15Update struct {
+	id             string
+	initial, final map[string]string
+}
+
+func c15Fields(e *schema.Ent) map[string]string {
+	out := map[string]string{}
+	if e == nil {
+		return out
+	}
+	for _, f := range []string{"name", "nick", "title"} {
+		out[f], _ = e.V[f].(string)
+	}
+	return out
+}
+
+func (w *c15Watch) ProcessPreCommit(s *boltz.EntityChangeState[*schema.Ent]) error {
+	if s.ChangeType == boltz.EntityUpdated {
+		w.mu.Lock()
+		w.seen = append(w.seen, c15Update{id: s.EntityId, initial: c15Fields(s.InitialState), final: c15Fields(s.FinalState)})
+		w.mu.Unlock()
+	}
+	return nil
+}
+
+func (w *c15Watch) ProcessPostCommit(*boltz.EntityChangeState[*schema.Ent]) {}
+
+func (w *c15Watch) take() []c15Update {
+	w.mu.Lock()
+	defer w.mu.Unlock()
+	out := w.seen
+	w.seen = nil
+	return out
+}
+
 func idsOf(c ast.SetCursor) []string {
 	var out []string
 	for ; c.IsValid(); c.Next() {
@@ -33,7 +76,7 @@ func init() {
 		Level: "exploration",
 		Rule: "random histories issuing create/update/patch/delete through the parent store (emps), a plain child store (emps/ext) and an extended child store (emps/xt) over mixed populations; " +
 			"after every transaction: FindById/LoadById visibility and shared fields through each store, child data presence, parent unique/set/fk indexes (structural monitor), QueryIds/IterateIds/IterateValidIds through each store vs the model, " +
-			"and a whole-file scan for the id after deletes through either store; non-trivial = distinct (op kind, store routed through, entity child kind, outcome, configuration) tuples",
+			"a whole-file scan for the id after deletes through either store, and an entity constraint on the parent store that must be handed the pre-transaction state for updates of plain and child entities alike; non-trivial = distinct (op kind, store routed through, entity child kind, outcome, configuration) tuples",
 		Assumptions: []string{"creating through a child store an id that already exists as a plain parent, and deleting a plain parent through the non-extended child store, are not generated (undefined by the statement)",
 			"the harness update mapper copies the caller's shared fields onto the loaded child entity (what an application mapper must do)"},
 		Plan: func(tier core.Tier, seed int64) int {
@@ -47,9 +90,41 @@ func init() {
 			cfg := c15Configs[idx%len(c15Configs)]
 			w := map[string]int{"create": 10, "update": 8, "patch": 8, "delete": 6, "deletewhere": 2, "addlinks": 1, "rcinc": 1}
 			var pre *kmodel.Model
+			// a constraint on the PARENT store sees every update, also those issued through a child store; it must be
+			// handed the state before the update (plain and child entities alike)
+			watch := &c15Watch{}
 			runHistory(c, r, histOpts{Prefix: "C15", Cfg: cfg, NTx: 40, MaxOps: 3, Hostile: true, Weights: w, NeedDump: true,
+				Setup: func(e *kmodel.Engine) { e.Sc.St(kmodel.Emps).Store.AddEntityConstraint(watch) },
 				AfterTx: func(e *kmodel.Engine, res *kmodel.TxResult, before, after *dump.Dump) {
 					defer func() { pre = e.M.Clone() }()
+					seen := watch.take()
+					if res.Committed && pre != nil {
+						touched := map[string]int{}
+						for _, op := range res.Ops {
+							touched[op.Id]++
+						}
+						for _, u := range seen {
+							old, existed := pre.Ents[kmodel.Emps][u.id]
+							if !existed || touched[u.id] != 1 {
+								continue // created or touched several times in this transaction: the first state is not the committed one
+							}
+							c.Eval()
+							c.Count("parent_constraint_updates_seen", 1)
+							kind := "plain"
+							for k := range old.Child {
+								kind = k
+							}
+							c.Cover("parent_constraint", "update of "+kind+" entity")
+							for _, f := range []string{"name", "nick", "title"} {
+								want, _ := old.V[f].(string)
+								if u.initial[f] != want {
+									c.Violationf("C15 parent-store constraint was handed a wrong initial state for an update of a "+kind+" entity", map[string]any{"cfg": cfg.String(), "tx": res.Ops, "id": u.id, "field": f},
+										"update of %s: initial %s = %q, before the transaction it was %q (final state has %q)", u.id, f, u.initial[f], want, u.final[f])
+									break
+								}
+							}
+						}
+					}
 					for _, op := range res.Ops {
 						kind := "plain"
 						if pre != nil {
@@ -167,7 +242,7 @@ func init() {
 				}})
 		},
 		Promises: func(core.Tier) map[string][]string {
-			return map[string][]string{"route": {
+			return map[string][]string{"parent_constraint": {"update of plain entity", "update of " + kmodel.Mgrs + " entity", "update of " + kmodel.Ctrs + " entity"}, "route": {
 				"create via emps/ext on plain:ok", "create via emps/xt on plain:ok", "create via emps on plain:ok",
 				"update via emps on emps/ext:ok", "update via emps on emps/xt:ok", "update via emps/ext on emps/ext:ok", "update via emps/xt on emps/xt:ok",
 				"patch via emps on emps/ext:ok", "patch via emps/ext on emps/ext:ok", "patch via emps/xt on emps/xt:ok",
